@@ -93,6 +93,20 @@ CLAIMED['C17'] = dict(
          'semantics, format(n, "x") = BigInteger.toString(16). The use of the hash in the login reaction is C10.',
     design='§6 C17')
 
+CLAIMED['C19'] = dict(
+    text='Every operation of AuthenticationToken and _raise_from_response is executed symbolically from its real source against '
+         'a ghost Yggdrasil service at the _make_request boundary: symbolic status code (200 / 204 / any other 1xx-5xx), 14 '
+         'reply-body shapes with symbolic string contents, token fields present/empty/absent where the operation depends on '
+         'them, and all 3^3*2^2 presence combinations for the authenticated predicate. Obligations: exactly one request with '
+         'the documented endpoint and payload, success stores exactly the returned tokens/profile, every error reply raises '
+         'YggdrasilError with status and error fields (or the Malformed message) for EVERY body shape, no credential field '
+         'changes on a raising path (frame), validate true iff 204, join refuses without a request when not authenticated. '
+         '_make_request's own body is checked against a model of requests.post.',
+    note='Trusted: requests.post reply object contract, json.dumps uninterpreted, JSON bodies explored by shape (contents '
+         'symbolic), string formatting modelled with z3 strings. A stub-of-requests.post grid on the real code runs alongside '
+         '(bounded). Real HTTP encoding by requests is not covered.',
+    design='§6 C19')
+
 PLANNED = {
     'C01': 'check not built yet (DESIGN §6 C01): frame contracts on Packet.write/_write_buffer/read_packet',
     'C02': 'check not built yet (DESIGN §6 C02)',
